@@ -221,10 +221,16 @@ func c05ClientAuth(w *World, r *Report) {
 		errv := e.State.Resolve(ret.Results[1])
 		errNil, errKnown := e.State.NilKnown(errv)
 		derefs, stores := 0, 0
+		lastOther := ""
 		for _, ev := range e.State.Events {
 			if st, isSt := ev.(*ssa.Store); isSt {
+				// the LAST store decides what the configuration says
 				if v, okv := constIntVal(st.Val); okv && v == want {
 					stores++
+					lastOther = ""
+				} else {
+					stores = 0
+					lastOther = w.Pos(st.Pos())
 				}
 			} else {
 				derefs++
@@ -247,7 +253,9 @@ func c05ClientAuth(w *World, r *Report) {
 		if reqKnown && !req {
 			return
 		}
-		if stores == 0 {
+		if stores == 0 && lastOther != "" {
+			bad = lastOther + ": on a success path with requireClientCert set, ClientAuth is finally set to something else than RequireAndVerifyClientCert (RequireAnyClientCert admits any self-signed or foreign certificate): clients whose certificate was not issued by the configured CA are admitted"
+		} else if stores == 0 {
 			bad = "a success path returns the server TLS configuration without ClientAuth=RequireAndVerifyClientCert although requireClientCert may be set: clients without a certificate are admitted"
 		}
 	})
